@@ -23,6 +23,28 @@ class VwNT(typing.NamedTuple):
     first: typing.Any
     second: typing.Any = None
 
+# objects that are falsy although they have fields (an empty page, a zero amount, a disabled flag)
+@dataclasses.dataclass
+class VwDCFalsy:
+    a: typing.Any
+    b: typing.Any = None
+    def __len__(self):
+        return 0
+
+class VwNTFalsy(typing.NamedTuple):
+    first: typing.Any
+    second: typing.Any = None
+    def __bool__(self):
+        return False
+
+class VwSlotsFalsy:
+    __slots__ = ("a", "b")
+    def __init__(self, a, b=None):
+        self.a = a
+        self.b = b
+    def __bool__(self):
+        return False
+
 class VwNT1(typing.NamedTuple):
     only: typing.Any
 
@@ -133,9 +155,10 @@ class VwSame:
         self.y = b
 '''
 
-CLASSES = ["VwDC", "VwNT", "VwNT1", "VwPlain", "VwPlainCV", "VwSlots", "VwSlotsPos", "VwSlotsPos", "VwSlotsPosSub", "VwSlotsOne", "VwPosSlots", "VwPosVars", "VwVars", "VwVarsDyn", "VwVarsDyn", "vw0same", "vw1same"]
+CLASSES = ["VwDCFalsy", "VwNTFalsy", "VwSlotsFalsy", "VwDC", "VwNT", "VwNT1", "VwPlain", "VwPlainCV", "VwSlots", "VwSlotsPos", "VwSlotsPos", "VwSlotsPosSub", "VwSlotsOne", "VwPosSlots", "VwPosVars", "VwVars", "VwVarsDyn", "VwVarsDyn", "vw0same", "vw1same"]
 # expected public (field, attribute) names per class, in order
 PUBLIC = {
+    "VwDCFalsy": ["a", "b"], "VwNTFalsy": ["first", "second"], "VwSlotsFalsy": ["a", "b"],
     "VwDC": ["a", "b"], "VwNT": ["first", "second"], "VwNT1": ["only"], "VwPlain": ["a", "b"], "VwPlainCV": ["a"],
     "VwSlots": ["a", "b"], "VwSlotsPos": ["x", "y", "zed", "w", "kappa"], "VwSlotsPosSub": ["x", "y", "zed", "w", "kappa", "extra"], "VwSlotsOne": ["x", "y", "zed", "w", "kappa", "single"], "VwPosSlots": ["ident", "name", "size"], "VwPosVars": ["ident", "name", "size"], "VwVars": ["a", "b"], "vw0same": ["a"], "vw1same": ["z", "y"],
 }
